@@ -35,10 +35,20 @@ def cases(draw, tier):
         c["A"] = {"re": draw(st.lists(fl, min_size=D * r, max_size=D * r)), "im": draw(st.lists(fl, min_size=D * r, max_size=D * r)), "r": r}
     else:
         c["t"] = {"re": draw(st.lists(fl, min_size=D, max_size=D)), "im": draw(st.lists(fl, min_size=D, max_size=D))}
+        if draw(st.integers(0, 3)) == 0:
+            # sparse targets (basis states, GHZ-like): exact zeros in the target distribution
+            keep = draw(st.lists(st.integers(0, D - 1), min_size=1, max_size=2, unique=True))
+            c["t"] = {"re": [c["t"]["re"][i] if i in keep else 0.0 for i in range(D)], "im": [c["t"]["im"][i] if i in keep else 0.0 for i in range(D)]}
+            c["sparse"] = True
     if t == "positive":
         c["bases"] = None
     else:
-        c["bases"] = draw(st.one_of(st.none(), st.lists(gen.basis_string(n), min_size=1, max_size=4, unique=True)))
+        bl = draw(st.one_of(st.none(), st.lists(gen.basis_string(n), min_size=1, max_size=4, unique=True)))
+        if bl is not None and draw(st.booleans()) and "Z" * n not in bl:
+            bl.insert(draw(st.integers(0, len(bl))), "Z" * n)      # the reference basis is what every real bases list contains
+        c["bases"] = bl
+    if t == "density" and draw(st.integers(0, 4)) == 0:
+        c["sparse_dm"] = draw(st.integers(0, D - 1)) + D
     c["dict_form"] = draw(st.booleans())
     c["space_default"] = draw(st.booleans())
     N = draw(st.integers(1, 6))
@@ -77,6 +87,9 @@ def check(c):
         rho = rho / rho.diagonal().real.sum()
         A = (torch.tensor(c["A"]["re"], dtype=R.F64) + 1j * torch.tensor(c["A"]["im"], dtype=R.F64)).reshape(D, c["A"]["r"])
         A = A + 1e-3 * torch.eye(D, c["A"]["r"], dtype=R.C128)
+        if c.get("sparse_dm"):
+            A = torch.zeros(D, 1, dtype=R.C128)
+            A[c["sparse_dm"] % D, 0] = 1.0          # a computational-basis projector: zero diagonal entries
         tau = A @ A.conj().t()
         tau = tau / tau.diagonal().real.sum()
         own = rho
@@ -88,7 +101,8 @@ def check(c):
         psi = psi / torch.sqrt((psi.abs() ** 2).sum())
         tv = torch.tensor(c["t"]["re"], dtype=R.F64) + 1j * torch.tensor(c["t"]["im"], dtype=R.F64)
         if float(tv.abs().max()) < 1e-6:
-            tv = tv + 1.0
+            tv = tv.clone()
+            tv[0] = 1.0
         tv = tv / torch.sqrt((tv.abs() ** 2).sum())
         own = psi
         born = lambda v, b: (R.kron_U(ud, b) @ v).abs() ** 2
@@ -96,6 +110,7 @@ def check(c):
         nonreal = bool((tv.imag.abs() > 1e-9).any())
     lib_t = R.c_to_lib(target)
     lib_own = R.c_to_lib(own)
+    keep_t, keep_own = lib_t.clone(), lib_own.clone()
 
     # ---------------- fidelity
     def fid_ref(a, b):
@@ -145,6 +160,15 @@ def check(c):
         kl_own = TS.KL(state, lib_own, space, bases=bases)
         require(is_plain_float(kl_own) and abs(kl_own) <= 1e-9, "KL:own-state" + (":bases=None" if bases is None else ""),
                 f"KL against the model's own state is {kl_own}, not 0 (bases {bases})")
+
+    # the same target tensors are used for every call above (as a training script does): they must not have been altered, and
+    # asking again must give the same answer
+    require(torch.equal(lib_t, keep_t) and torch.equal(lib_own, keep_own), "target-mutated", "a metric modified the caller's target tensor (later evaluations with the same target are then wrong)")
+    f_again = TS.fidelity(state, lib_t, space)
+    require(abs(f_again - f) <= 1e-12, "fidelity:not-repeatable", f"fidelity of the same state and target changed from {f} to {f_again} on a second call")
+    if not risky:
+        kl_again = TS.KL(state, lib_t, space, bases=bases)
+        require(is_plain_float(kl_again) and (abs(kl_again - want) <= 1e-8 * (1 + abs(want))), "KL:not-repeatable", f"KL changed to {kl_again} on a later call (expected {want})")
 
     # ---------------- NLL
     rows = born_rows({"state": sc, "rows": c["rows"]})
